@@ -23,6 +23,14 @@ pub fn gen_multi_error_stream(t0: &mut Tape, labels: &mut Vec<String>) -> (Vec<u
         },
     );
     let mut mt = t0.fork(1200);
+    // a fifth of the inputs hold an exact multiple of the reader's batch size (100 packets): the end of input then
+    // coincides with a batch boundary
+    if mt.chance(1, 5) {
+        let target = if cs.stream.n_packets() <= 98 { 100 } else { 200 };
+        if gen::pad_to_packet_count(&mut cs, target) {
+            labels.push("packets:multiple_of_100".into());
+        }
+    }
     // a quarter of the inputs carry ONE FEE ID on all links (several links of one front-end, or a corrupted id):
     // outside stave mode the links are still validated by separate threads
     if mt.chance(1, 4) {
@@ -410,7 +418,7 @@ fn many_errors_case(i: u64, w: &Worker) -> CaseResult {
 pub fn build() -> Property {
     Property {
         id: "C05",
-        rule: "Multi-link (1..8 links, interleaved) G_conf streams corrupted so that several messages share an offset (E10+E11, E991+E70, E40+E444, E50) on every link, plus G_mut edits and a conforming control; \
+        rule: "Multi-link (1..8 links, interleaved) G_conf streams corrupted so that several messages share an offset (E10+E11, E991+E70, E40+E444, E50) on every link, plus G_mut edits and a conforming control; a fifth padded to exactly 100 / 200 packets; \
                modes {check all, check all its, check all its-stave} x mute x {JSON, TOML} (a fifth of the non-stave cases additionally with --filter-link <present link> -o <file>, an output the tool documents as ignored next to a check). Each case is executed K times (quick 8, thorough 40) on the hook-enabled CLI under different \
                FASTPASTA_VERIF_SCHED settings (unperturbed, slow validators, slow collector, slow dispatcher, random yields/sleeps at every channel hand-off). Oracle: all K runs give the same ERROR records in the \
                same order, the same report (minus `Processed in`), a byte-identical statistics file and the same exit status. Non-trivial = the K runs produced >= 2 distinct pre-sort arrival orders \
